@@ -13,7 +13,7 @@ CASES = {"quick": 10000, "thorough": 300000}
 MIN_CASES_PER_SHARD = 50
 CASE_TIMEOUT = 60
 RULE = ("one case = generated map (one-way streets, dead ends, self-listed neighbours, zero-length roads; 15 % with linked parallel edges; 15 % "
-        "loaded in SqliteMap) x trace x configuration (all families, non-emitting on in 60 %, widths) x history of match/extend/widen calls (10 % "
+        "loaded in SqliteMap; 8 % a hostile class with two edges ending in one node of which only one is linked to a distant edge) x trace x configuration (all families, non-emitting on in 60 %, widths) x history of match/extend/widen calls (10 % "
         "with continue_with_distance, where only state existence is judged). Non-trivial = best path visiting >= 3 distinct states; distinct = "
         "hash of the case")
 ANCHORS = [("leuvenmapmatching/matcher/base.py", "BaseMatcher._match_states"),
@@ -245,5 +245,5 @@ def amplify(ctx, case, mt, mp, model):
 TECHNIQUE = "runtime monitoring: oracle over the reported best path against the raw graph after every public call of generated histories (both backends)"
 LEVEL_TEXT = ("{Q} (quick) / {T} (thorough) histories; every state of every reported best path must be a node/directed edge of the raw graph and every "
               "consecutive pair a move the graph offers; the nodes-only view must be computable, without immediate repeats and pairwise adjacent "
-              "(maps without linked edges, no jump used). Held-on-observed.")
+              "(maps without linked edges, no jump used). In addition the whole lattice is scanned for best-predecessor links the map does not offer; such a hint only becomes a verdict when a derived trace (directed amplification) puts it on a best path. Held-on-observed.")
 LEVEL_NOTE = "Trusted: the raw-graph adjacency of the case. Linked parallel edges only on InMemMap (SqliteMap needs an R-tree scan to create them)."
